@@ -18,11 +18,13 @@ Print Assumptions C06_sites_complete.
    of the frame snapshot that C07's theorems are instantiated on (each raw slot read is one
    operation together with taking the reference and is immediately preceded by the f_lasti
    re-check; no call between capturing the interpreter-frame pointer and the first re-check;
-   all raw reads inside the retry loop): regenerated from /repo's source on every run *)
+   all raw reads inside the retry loop; a running frame's stack is read only up to the depth of an
+   exception-table entry that contains f_lasti, or 0): regenerated from /repo's source on every run *)
 Theorem C06_snapshot_structure :
   SrcFacts.snapshot_slot_check_adjacent = true /\ SrcFacts.snapshot_header_check_adjacent = true
   /\ SrcFacts.snapshot_capture_to_check_no_call = true /\ SrcFacts.snapshot_iframe_reads_in_loop = true
-  /\ SrcFacts.snapshot_check_read_no_switch_bytecode = true.
+  /\ SrcFacts.snapshot_check_read_no_switch_bytecode = true
+  /\ SrcFacts.c06_trim_depth_within_entry = true.
 Proof. repeat split; reflexivity. Qed.
 Print Assumptions C06_snapshot_structure.
 
